@@ -875,6 +875,24 @@ def correspondence(case, impl, model):
     return None
 
 
+def loose_canon(j):
+    """canonical form up to Python `==` on numbers (True == 1 == 1.0 == Decimal(1))"""
+    from fractions import Fraction
+    if isinstance(j, bool):
+        return ["num", int(j), 1]
+    if isinstance(j, int):
+        return ["num", j, 1]
+    if isinstance(j, list):
+        return [loose_canon(x) for x in j]
+    if isinstance(j, dict):
+        if "f" in j or "d" in j:
+            a = j.get("f") or j.get("d")
+            fr = Fraction(a[0], a[1])
+            return ["num", fr.numerator, fr.denominator]
+        return {k: loose_canon(v) for k, v in j.items()}
+    return j
+
+
 def chain_correspondence(case, impl, model):
     """model `runChain` vs the real entry points"""
     if "chain" not in impl or "chainRes" not in model:
@@ -892,6 +910,10 @@ def chain_correspondence(case, impl, model):
             if serde._same(mc["ok"], ic["ok"]):
                 return None
         if dump.canon(mc["ok"]) != dump.canon(ic["ok"]):
+            if '"anyOf"' in json.dumps(case["cls"]) and loose_canon(dump.canon(mc["ok"])) == loose_canon(dump.canon(ic["ok"])):
+                # a re-validating copy of a value held through AnyOf may match an EARLIER option that converts it: the
+                # copy is `==` but not identical (Props/C01.lean anyOf_restores_differently); copies promise equality
+                return None
             return (f"chain {ic.get('applied')}: different instances: model=" + json.dumps(dump.canon(mc["ok"]))[:400]
                     + " impl=" + json.dumps(dump.canon(ic["ok"]))[:400])
         return None
